@@ -86,7 +86,7 @@ def tree_sexp(t):
 
 def frag_program(rng):
     """a program of the fragment for which compile-then-execute = source meaning is PROVED (props/C01.v, C01_var_programs):
-    top-level declarations, assignments, expression statements, if/else, if and (counted, hence ending) condition loops with break / continue
+    declarations (at the top level and inside blocks, where they last until the block ends), assignments, expression statements, if/else, if and (counted, hence ending) condition loops with break / continue
     nested up to three deep, over scalar expressions on integers, booleans, nil and strings; here it is rendered to source text and pushed through the real pipeline like every other program"""
     nvars = [0]
     kinds = []          # 'i' / 'b' / '?' per variable (what it was last given; a guide for the generator, not a type system)
@@ -147,7 +147,7 @@ def frag_program(rng):
     free_counters = []      # loop counters: declared first, assigned only by the loop that uses them
 
     def simple():
-        cand = [j for j in range(nvars[0]) if kinds[j] != 'c']
+        cand = [j for j in range(nvars[0]) if kinds[j] not in ('c', 'x')]
         if cand and rng.chance(1, 2):
             j = rng.choice(cand)
             c = rng.below(6)
@@ -161,7 +161,15 @@ def frag_program(rng):
         return expr(1)[0]
 
     def block(depth, in_loop=False):
-        return "; ".join(x for _ in range(rng.below(3)) for x in inner(depth, in_loop))
+        n0 = nvars[0]
+        saved = list(kinds)
+        text = "; ".join(x for _ in range(rng.below(4)) for x in inner(depth, in_loop))
+        for j in range(n0, nvars[0]):
+            kinds[j] = 'x'                      # declared in this block: gone when it ends
+        for j in range(n0):
+            if kinds[j] != saved[j]:
+                kinds[j] = '?'                  # assigned on one path only
+        return text
 
     def inner(depth, in_loop=False):
         """the statements a block may hold: assignments, expressions, conditionals, counted loops (nesting <= 3); inside a loop
@@ -174,6 +182,11 @@ def frag_program(rng):
             return ["if %s { %s } else { %s }" % (bexpr(1), block(depth + 1, in_loop), block(depth + 1, in_loop))]
         if k == 7 and depth < 3:
             return ["if %s { %s }" % (bexpr(1), block(depth + 1, in_loop))]
+        if k == 5 and depth > 0:
+            e, t = expr(1)
+            nvars[0] += 1
+            kinds.append(t)
+            return ["v%d := %s" % (nvars[0] - 1, e)]
         if k == 6 and depth < 3 and free_counters:
             j = free_counters.pop()
             body = block(depth + 1, True)
@@ -190,7 +203,7 @@ def frag_program(rng):
         kinds.append('c')
     for _ in range(2 + rng.below(7)):
         k = rng.below(9)
-        cand = [j for j in range(nvars[0]) if kinds[j] != 'c']
+        cand = [j for j in range(nvars[0]) if kinds[j] not in ('c', 'x')]
         if k < 3 or not cand:
             e, t = expr(0)
             lines.append("v%d := %s" % (nvars[0], e))
@@ -324,6 +337,11 @@ def run(res):
                 continue
             if x.startswith("ERR FUEL") and y.startswith("ERR FUEL"):
                 agree[stage] += 1
+                continue
+            if y.startswith("ERR FUEL"):
+                # the MODEL ran out of fuel: not an observation of anything (an implementation that does not end while the
+                # model gives a result is still compared)
+                skipped[stage] += 1
                 continue
             if x == y:
                 agree[stage] += 1
